@@ -472,6 +472,19 @@ class Repo:
                     return _CMPOPS[op](a, b)
                 except Exception as e:
                     raise NotConst(str(e))
+        if isinstance(expr, ast.Compare) and len(expr.ops) > 1:
+            left = f(expr.left)
+            for op, comp in zip(expr.ops, expr.comparators):
+                right = f(comp)
+                if type(op) not in _CMPOPS:
+                    raise NotConst("compare op")
+                try:
+                    if not _CMPOPS[type(op)](left, right):
+                        return False
+                except Exception as e:
+                    raise NotConst(str(e))
+                left = right
+            return True
         if isinstance(expr, ast.IfExp):
             return f(expr.body) if f(expr.test) else f(expr.orelse)
         if isinstance(expr, ast.Name):
